@@ -18,8 +18,8 @@ Definition emit (t : target) (body : list stmt) : result :=
   end.
 
 Definition transpile_entry (E : env) (path : bytes) (fe : fentry) (t : target) : result :=
-  match parse_entry E (S (length (e_fs E))) [] path false fe with
-  | POk body _ _ => emit t body
+  match parse_entry E (S (length (e_fs E))) [] [] path false fe with
+  | POk body _ _ _ => emit t body
   | PErr => Failed
   | PFuel => OutOfFuel
   end.
